@@ -1,0 +1,5 @@
+//go:build !verif
+
+package textwire
+
+func verifGate(string) {}
